@@ -248,48 +248,7 @@ func c14Rules(p *core.Prog, r *core.Run) {
 	r.Floor("C14.N6", 6)
 
 	// --- N7
-	var sorts []site
-	for _, s := range callSites(p, []*ssa.Function{rs}, `sort\.(Slice|SliceStable)|slices\.SortFunc|slices\.SortStableFunc`) {
-		sorts = append(sorts, s)
-	}
-	okSort := false
-	if len(sorts) == 1 {
-		s := sorts[0]
-		arg := s.X.Args[0]
-		onHTTPS := arg.Op == "field" && arg.Name == "HTTPS"
-		less := false
-		if cl := s.X.Args[1]; cl.Op == "closure" && cl.Fn != nil {
-			for _, ret := range core.Returns(cl.Fn) {
-				x := p.X(ret.Results[0])
-				if x.Op == "bin" && x.Name == "<" && x.Args[0].Op == "field" && x.Args[0].Name == "Priority" && x.Args[1].Op == "field" && x.Args[1].Name == "Priority" &&
-					x.Args[0].Args[0].Op == "index" && x.Args[1].Args[0].Op == "index" && x.Args[0].Args[0].Args[1].Name == "c0" && x.Args[1].Args[0].Args[1].Name == "c1" {
-					less = true
-				}
-			}
-		}
-		// no append to result.HTTPS may follow the sort; target resolution follows it
-		later := false
-		for _, b := range rs.Blocks {
-			for _, in := range b.Instrs {
-				if st, ok := in.(*ssa.Store); ok {
-					x := p.X(st.Addr)
-					if x.Op == "field" && x.Name == "HTTPS" && !isNilConst(st.Val) && core.MayFollow(s.Instr, st) {
-						later = true
-					}
-				}
-			}
-		}
-		before := true
-		for _, t := range allCalls(p, []*ssa.Function{rs}) {
-			if t.X.Fn == rt && !core.MayFollow(s.Instr, t.Instr) {
-				before = false
-			}
-		}
-		okSort = onHTTPS && less && !later && before
-		r.Check("C14.N7", "sort:by-priority", okSort, p.InstrPos(s.Instr), "service-mode records are sorted ascending by Priority (%v on result.HTTPS: %v), nothing is appended afterwards (%v) and target resolution comes after it (%v)", less, onHTTPS, !later, before)
-	} else {
-		r.Check("C14.N7", "sort:by-priority", false, p.Pos(rs.Pos()), "expected one sort of the HTTPS records, found %d", len(sorts))
-	}
+	c14Sorted(p, r, rs, rt, "C14.N7")
 
 	// --- N9: every service-mode record that names a target has that target's
 	// addresses looked up: inside the loop over the records the call is guarded by
@@ -686,5 +645,53 @@ func c14QueryName(p *core.Prog, r *core.Run, rs *ssa.Function, rule string) {
 	}
 	r.Check(rule, "scheme:http-folds-to-https", folded, p.Pos(rs.Pos()), "scheme http (case-insensitively) is treated as https")
 	r.Floor(rule, 3)
+
+}
+
+// c14Sorted: the HTTPS records are sorted by priority (shared with C19.H3: the
+// protocol choice walks the records in order and stops at the first usable one).
+func c14Sorted(p *core.Prog, r *core.Run, rs, rt *ssa.Function, rule string) {
+	var sorts []site
+	for _, s := range callSites(p, []*ssa.Function{rs}, `sort\.(Slice|SliceStable)|slices\.SortFunc|slices\.SortStableFunc`) {
+		sorts = append(sorts, s)
+	}
+	okSort := false
+	if len(sorts) == 1 {
+		s := sorts[0]
+		arg := s.X.Args[0]
+		onHTTPS := arg.Op == "field" && arg.Name == "HTTPS"
+		less := false
+		if cl := s.X.Args[1]; cl.Op == "closure" && cl.Fn != nil {
+			for _, ret := range core.Returns(cl.Fn) {
+				x := p.X(ret.Results[0])
+				if x.Op == "bin" && x.Name == "<" && x.Args[0].Op == "field" && x.Args[0].Name == "Priority" && x.Args[1].Op == "field" && x.Args[1].Name == "Priority" &&
+					x.Args[0].Args[0].Op == "index" && x.Args[1].Args[0].Op == "index" && x.Args[0].Args[0].Args[1].Name == "c0" && x.Args[1].Args[0].Args[1].Name == "c1" {
+					less = true
+				}
+			}
+		}
+		// no append to result.HTTPS may follow the sort; target resolution follows it
+		later := false
+		for _, b := range rs.Blocks {
+			for _, in := range b.Instrs {
+				if st, ok := in.(*ssa.Store); ok {
+					x := p.X(st.Addr)
+					if x.Op == "field" && x.Name == "HTTPS" && !isNilConst(st.Val) && core.MayFollow(s.Instr, st) {
+						later = true
+					}
+				}
+			}
+		}
+		before := true
+		for _, t := range allCalls(p, []*ssa.Function{rs}) {
+			if t.X.Fn == rt && !core.MayFollow(s.Instr, t.Instr) {
+				before = false
+			}
+		}
+		okSort = onHTTPS && less && !later && before
+		r.Check(rule, "sort:by-priority", okSort, p.InstrPos(s.Instr), "service-mode records are sorted ascending by Priority (%v on result.HTTPS: %v), nothing is appended afterwards (%v) and target resolution comes after it (%v)", less, onHTTPS, !later, before)
+	} else {
+		r.Check(rule, "sort:by-priority", false, p.Pos(rs.Pos()), "expected one sort of the HTTPS records, found %d", len(sorts))
+	}
 
 }
